@@ -69,7 +69,7 @@ PLAN["C11"] = {
     "parts": [{"engine": "streamsim", "quick": 20000, "thorough": 600000, "quick_wall": 80}],
     "nontrivial": "the stream wrapped the 32-packet receive buffer at least once and >=1 read ended inside a type or length field (readTlvStream), or >3 blocks went through StreamFace.Run over a pipe",
     "fault_note": "stream I/O faults: arbitrary chunking incl. 1-byte reads and reads ending inside T/L, reads that exactly fill the buffer, transient read errors (with and without data), EOF at an arbitrary byte",
-    "components": {"real": ["fw/face readTlvStream (the loop behind TCP and Unix stream transports)", "std/engine/face StreamFace.Run (over net.Pipe in a synctest bubble)", "std/encoding ReadTLNum"], "stub": ["socket (scripted io.Reader / net.Pipe)", "link service above the framing (frames are copied inside the callback, as handleIncomingFrame does)"]},
+    "components": {"real": ["fw/face readTlvStream (the loop behind TCP and Unix stream transports)", "std/engine/face StreamFace.Run (over net.Pipe in a synctest bubble)", "std/encoding ReadTLNum", "fw/face readTlvDatagrams (the loop behind the UDP transports; 2% of runs on a scripted datagram socket: whole blocks grouped into datagrams, transient errors)", "5% of runs: the receive loops of the real TCP (accepted and outgoing-permanent), Unix-stream and unicast UDP transports over loopback sockets"], "stub": ["socket (scripted io.Reader / net.Pipe; real loopback sockets in 5% of runs)", "link service above the framing (frames are copied inside the callback, as handleIncomingFrame does)"]},
     "assumptions": ["TLV lengths use the shortest encoding (NDN packet format); 5-byte VAR-NUMBER forms are exercised in the type field", "EOF is delivered as a separate (0, EOF) read, as net.Conn does"],
 }
 PLAN["C10"] = {
@@ -80,10 +80,10 @@ PLAN["C10"] = {
     "assumptions": ["PIT tokens are at most 32 bytes (NDNLPv2)", "the receiver is a non-local face (local faces fan Data out to several threads by design)"],
 }
 PLAN["C04"] = {
-    "parts": [{"engine": "rxsim", "quick": 6000, "thorough": 600000}, {"engine": "dvsim", "quick": 1200, "thorough": 60000, "quick_wall": 45}, {"engine": "objsim", "quick": 1500, "thorough": 80000, "quick_wall": 45}, {"engine": "svsim", "quick": 3000, "thorough": 150000, "quick_wall": 45}, {"engine": "mgmtsim", "quick": 4000, "thorough": 200000, "quick_wall": 45}],
-    "nontrivial": "rxsim: >=1 corrupted frame was put on the link and >=1 frame of the run decoded past its outer type-length; dvsim: >=1 corrupted routing packet (sync Interest, advertisement Interest/Data, prefix Interest/Data) reached a router; objsim: >=1 corrupted metadata/segment Interest or Data reached the producer or the consumer; svsim: >=1 corrupted Sync Interest reached a node; mgmtsim: >=1 command with corrupted ControlParameters reached the management thread",
-    "fault_note": "link corruption fault over valid traffic (bare and LP-wrapped Interests/Data, Nacks, idle frames, real fragments): every TLV length replaced by boundary/huge values (with and without patching the enclosing lengths), truncation, bit flips, type confusion, inserted bytes, fragment index/count/sequence rewrites, PIT tokens naming thread count-1/count/65535, random frames; optionally delivered through the stream framing loop under arbitrary chunking",
-    "components": {"real": ["fw/face readTlvStream", "fw/face NDNLPLinkService.handleIncomingFrame + reassembly + dispatchInterest/dispatchData", "fw/dispatch GetFWThread", "fw/fw Thread.Run (1..32 threads) with PIT/CS/FIB behind it", "std/engine/basic Engine.onPacket (same frames, contiguous and 2-/3-segment readers)", "std/ndn/spec_2022 decoders (Interest, Data, LpPacket)", "std/encoding readers", "dvsim part: dv/dv Router receive handlers, dv/tlv decoders (Advertisement, PrefixOpList, sync state vector), std/engine/basic Engine per router - routing traffic corrupted in transit", "objsim part: std/object consumer and producer clients, segment fetcher, std/ndn/rdr_2024 metadata decoder - object traffic corrupted in transit", "svsim part: std/sync SvSync (2-4 instances: main loop, suppression, periodic timer on the bubble clock), std/ndn/svs_2024 state-vector decoder, std/engine/basic Engine per node - Sync Interests corrupted in transit", "mgmtsim part: the whole forwarder (management thread and modules, mgmt_2022 ControlParameters decoder, internal face, forwarding threads) - command parameters corrupted in transit"], "stub": ["transport (SimTransport)", "upstream face (sink)", "dvsim part: the forwarders between daemons (hub), SvSync dissemination", "objsim part: faces, network", "svsim part: faces, multicast link", "mgmtsim part: transports of application faces"]},
+    "parts": [{"engine": "rxsim", "quick": 6000, "thorough": 600000}, {"engine": "dvsim", "quick": 1200, "thorough": 60000, "quick_wall": 45}, {"engine": "objsim", "quick": 1500, "thorough": 80000, "quick_wall": 45}, {"engine": "svsim", "quick": 3000, "thorough": 150000, "quick_wall": 45}, {"engine": "mgmtsim", "quick": 4000, "thorough": 200000, "quick_wall": 45}, {"engine": "streamsim", "quick": 6000, "thorough": 300000, "quick_wall": 30}],
+    "nontrivial": "rxsim: >=1 corrupted frame was put on the link and >=1 frame of the run decoded past its outer type-length; dvsim: >=1 corrupted routing packet (sync Interest, advertisement Interest/Data, prefix Interest/Data) reached a router; objsim: >=1 corrupted metadata/segment Interest or Data reached the producer or the consumer; svsim: >=1 corrupted Sync Interest reached a node; mgmtsim: >=1 command with corrupted ControlParameters reached the management thread; streamsim: >3 blocks travelled in well-formed datagrams around >=1 undecodable datagram",
+    "fault_note": "link corruption fault over valid traffic (bare and LP-wrapped Interests/Data, Nacks, idle frames, real fragments): every TLV length replaced by boundary/huge values (with and without patching the enclosing lengths), truncation, bit flips, type confusion, inserted bytes, fragment index/count/sequence rewrites, PIT tokens naming thread count-1/count/65535, random frames; optionally delivered through the stream framing loop under arbitrary chunking; datagram faces: undecodable datagrams slipped in between well-formed ones - every block of a well-formed datagram must still be delivered, unaltered and once, and the receive loop must go on",
+    "components": {"real": ["fw/face readTlvStream", "fw/face NDNLPLinkService.handleIncomingFrame + reassembly + dispatchInterest/dispatchData", "fw/dispatch GetFWThread", "fw/fw Thread.Run (1..32 threads) with PIT/CS/FIB behind it", "std/engine/basic Engine.onPacket (same frames, contiguous and 2-/3-segment readers)", "std/ndn/spec_2022 decoders (Interest, Data, LpPacket)", "std/encoding readers", "dvsim part: dv/dv Router receive handlers, dv/tlv decoders (Advertisement, PrefixOpList, sync state vector), std/engine/basic Engine per router - routing traffic corrupted in transit", "objsim part: std/object consumer and producer clients, segment fetcher, std/ndn/rdr_2024 metadata decoder - object traffic corrupted in transit", "svsim part: std/sync SvSync (2-4 instances: main loop, suppression, periodic timer on the bubble clock), std/ndn/svs_2024 state-vector decoder, std/engine/basic Engine per node - Sync Interests corrupted in transit", "mgmtsim part: the whole forwarder (management thread and modules, mgmt_2022 ControlParameters decoder, internal face, forwarding threads) - command parameters corrupted in transit", "streamsim part: fw/face readTlvDatagrams, the receive loop of the unicast and multicast UDP transports, over a scripted datagram socket (96%) and the real UnicastUDPTransport over a loopback socket (4%) - undecodable datagrams (block cut short, length beyond the maximum packet size, unfinished header, empty) between well-formed ones"], "stub": ["transport (SimTransport)", "upstream face (sink)", "dvsim part: the forwarders between daemons (hub), SvSync dissemination", "objsim part: faces, network", "svsim part: faces, multicast link", "mgmtsim part: transports of application faces", "streamsim part: the datagram socket (scripted, except in the loopback runs), the link service above the framing (recorder)"]},
     "assumptions": ["decided for the forwarder's and the application engine's receive paths and the decoders they reach; dv/tlv decoders are reached by this check's dvsim part (routing packets corrupted in transit, including the TLVs nested in Data content), mgmt_2022 ControlParameters by this check's mgmtsim part, rdr_2024 and the object clients by this check's objsim part; svs_2024 by this check's svsim part; ndncert_0_3, schema/demosec and the generator's test models are not reached by any simulated component and are NOT decided (see DESIGN.md 6.C04)",
                     "allocation bound per frame: 1 MiB + 64 x frame length (forwarder), 4x that for the engine's three passes"],
     "level_text": "Seeded search over corrupted traffic delivered to the real receive paths in a deterministic simulation; invariants per frame: no panic, bounded allocation, bounded steps, no state change on undecodable frames. Samples the byte-sequence space through structure-aware mutation; not a proof, and scoped to decoders a simulated component reaches.",
@@ -141,7 +141,7 @@ ENGINES = [
     {"name": "mgmtsim", "path": "sim/mgmtsim", "serves_properties": ["C17", "C06", "C04"], "kind_free_text": "whole forwarder (management thread, internal face, forwarding threads, link services) in one synctest bubble; command histories against a command-level reference model"},
     {"name": "rxsim", "path": "sim/facesim/rx.go", "serves_properties": ["C04"], "kind_free_text": "hostile link (structure-aware corruption) in front of the real forwarder receive path (link service, reassembly, dispatch, forwarding threads) and the application engine"},
     {"name": "linksim", "path": "sim/facesim/link.go", "serves_properties": ["C10"], "kind_free_text": "two real link services joined by a simulated datagram link that permutes, drops and duplicates frames"},
-    {"name": "streamsim", "path": "sim/facesim/stream.go", "serves_properties": ["C11"], "kind_free_text": "scripted stream socket (chunking, transient errors, EOF) under the real stream framing loops"},
+    {"name": "streamsim", "path": "sim/facesim/stream.go", "serves_properties": ["C11", "C04"], "kind_free_text": "scripted stream socket (chunking, transient errors, EOF) and scripted datagram socket (grouping, undecodable datagrams) under the real framing loops"},
     {"name": "enginesim", "path": "sim/enginesim", "serves_properties": ["C20"], "kind_free_text": "real application engine on a simulated face and timer (event heap; scenario-chosen interleaving of arrivals and timer firings), on the repository's dummy timer/face, or on its production timer inside a synctest bubble"},
     {"name": "cssim", "path": "sim/cssim", "serves_properties": ["C07"], "kind_free_text": "one Content Store driven through its table interface in a synctest bubble (fake clock) against a reference LRU cache"},
     {"name": "tablesim", "path": "sim/tablesim", "serves_properties": ["C05", "C06", "C08"], "kind_free_text": "operation histories (with face teardown injected) against the real FIBs and RIB; reference models; shrinking; replay"},
